@@ -33,7 +33,7 @@ ASSUMPTIONS = [
     "payload space is the planted namespace listed in bounds; names resolving to other kinds of object are not distinguished by the code",
 ]
 TRUSTED = ["pydantic validate_call / model validation (executed)", "vt.sym explorer", "trap namespace in this file"]
-BOUNDS = {"module names": 8, "type names": 27, "nesting depth": "<= 2 quick; <= 4 thorough (all cause/context paths of length 2, cause^3)", "loads per run": "<= 2"}
+BOUNDS = {"module names": 9, "type names": 34, "nesting depth": "<= 2 quick; <= 4 thorough (all cause/context paths of length 2, cause^3)", "loads per run": "<= 2"}
 REQUIRED_COVERS = ["security_error", "exception_instance", "synthetic_class", "nested", "repeated", "via_result", "via_function", "constructor_fallback"]
 
 CALLS: List[Any] = []
@@ -101,6 +101,15 @@ def plant() -> None:
         fh.write("")
     with open(os.path.join(pkg, "errors.py"), "w") as fh:
         fh.write("import builtins\nbuiltins._vt_side_effect = getattr(builtins, '_vt_side_effect', 0) + 1\nclass Boom(Exception):\n    pass\n")
+    # a package that is installed (importable) but dormant: neither it nor its sub-package has been imported
+    dorm = os.path.join(d, "vtdormant")
+    os.mkdir(dorm)
+    os.mkdir(os.path.join(dorm, "inner"))
+    for pth in (os.path.join(dorm, "__init__.py"), os.path.join(dorm, "inner", "__init__.py")):
+        with open(pth, "w") as fh:
+            fh.write("import builtins\nbuiltins._vt_side_effect = getattr(builtins, '_vt_side_effect', 0) + 1\n")
+    with open(os.path.join(dorm, "inner", "errors.py"), "w") as fh:
+        fh.write("class Boom(Exception):\n    pass\n")
     sys.path.insert(0, d)
     importlib.import_module("vtpkgx")
     _PKG["dir"] = d
@@ -110,10 +119,12 @@ def plant() -> None:
     atexit.register(shutil.rmtree, d, True)
 
 
-MODULES = [None, "vt_trapmod", "vt_missing_mod", "vtpkgx.errors", "builtins", "os", "vt_trapmod.sub", "taskiq"]
+MODULES = [None, "vt_trapmod", "vt_missing_mod", "vtpkgx.errors", "builtins", "os", "vt_trapmod.sub", "taskiq", "vtdormant.inner.errors"]
 TYPES = ["trap_fn", "TrapCls", "trap_instance", "sub", "GoodExc", "BaseOnlyExc", "WeirdExc", "Holder.Inner", "Holder.fn", "Holder.NotExc",
          "Holder.inst", "nothing", "Holder.nothing", "sub.f", "sub.E", "Boom", "system", "object", "ValueError", "eval", "f", "E",
-         "api.run_receiver_task", "cli", "schedule_sources.LabelScheduleSource", "exceptions.SecurityError", "AsyncBroker"]
+         "api.run_receiver_task", "cli", "schedule_sources.LabelScheduleSource", "exceptions.SecurityError", "AsyncBroker",
+         # names that exist in the namespaces the loader falls back to (taskiq.serialization / taskiq.exceptions)
+         "safe_repr", "Any", "sys", "SecurityError", "subclass_exception", "ExceptionRepr", "Optional"]
 ARGS: List[Tuple[Any, ...]] = [(), ("a",), ("x", 1)]
 
 
